@@ -201,6 +201,17 @@ func (i *interpreter) globalCell(g *ssa.Global) *value {
 
 type pathAbort struct{ outcome, msg string }
 
+// progMu guards the SSA program's package table: stage 2 adds packages (CreatePackage) while
+// other workers resolve functions and methods through it.
+var progMu sync.RWMutex
+
+func (i *interpreter) methodValue(sel *types.Selection) *ssa.Function {
+	progMu.RLock()
+	defer progMu.RUnlock()
+	return i.prog.MethodValue(sel)
+}
+
+
 // runPath executes the harness once under a decision prefix.
 func (m *Machine) runPath(fn *ssa.Function, script []int, sv *Solver, pool *Pool, opts ExploreOpts) (res *PathResult) {
 	res = &PathResult{Emits: map[string]string{}, Witnesses: map[string]string{}}
